@@ -85,4 +85,3 @@ package context
 //@   invariant boostTableOK() && boosts != nil && fresh(boosts) && (forall k string :: (k in boosts) ==> boosts[k] >= 1.0)
 //@ loop 4
 //@   invariant boostTableOK() && boosts != nil && fresh(boosts) && (forall k string :: (k in boosts) ==> boosts[k] >= 1.0)
-
